@@ -30,6 +30,18 @@ static void list_units(const std::string& tier0)
         for (int first=0; first<nsz; first++)
             printf("style=%s,gran=%d,depth=%d,sizes=%s,first=%d,maxlive=%d\n", st, g, depth, sizes, first, th?5:4);
     }
+    // narrow menus, deeper: two small sizes + one large request (which also raises max_request so merged holes stay in the grid)
+    for (const char* st : {"ORIGINAL_GRID","ARRAY_PLUS_GRID","HEAP_MANAGER","MALLOC_MANAGER","FREELISTS"}) for (int g : {4,8}) {
+        bool fl = !strcmp(st,"FREELISTS");
+        std::vector<int> small = fl ? std::vector<int>{1,2,3,8} : std::vector<int>{2,4,5,6,9};
+        int big = fl ? 15 : 40;
+        int depth = th ? (asan ? 8 : 9) : (asan ? 7 : 8);
+        for (size_t i=0;i<small.size();i++) for (size_t j=i;j<small.size();j++) {
+            if (asan && ((i+j)&1)) continue;
+            if (i==j) printf("style=%s,gran=%d,depth=%d,sizes=%d.%d,first=-1,maxlive=4\n", st, g, depth, small[i], big);
+            else printf("style=%s,gran=%d,depth=%d,sizes=%d.%d.%d,first=-1,maxlive=4\n", st, g, depth, small[i], small[j], big);
+        }
+    }
     printf("mode=refusal\n");
 }
 
@@ -167,8 +179,8 @@ static void run_unit(const std::map<std::string,std::string>& spec)
 
     // all enabled sequences of length exactly `depth` whose first symbol is request(sizes[first]) (every prefix is checked on the way);
     // shorter sequences are prefixes of these
-    std::vector<int> seq; seq.push_back(first);
-    std::vector<int> livecnt; livecnt.push_back(1);
+    std::vector<int> seq; std::vector<int> livecnt;
+    if (first>=0) { seq.push_back(first); livecnt.push_back(1); } else livecnt.push_back(0);
     // iterative DFS over leaves
     std::function<void()> rec = [&]() {
         if (ctx.stop) return;
